@@ -62,4 +62,40 @@ def run (sorted : Bool) (fmt dateFmt : Bytes) (file : Bytes) : Bytes × Option E
   let ls := if sorted then ls.mergeSort (fun a b => a.1 ≤ b.1) else ls
   ((ls.map (·.2)).flatten, err)
 
+/-! ### TextOutputStream (include/binlog/TextOutputStream.cpp)
+
+  `write(data, size)`: a `RangeEntryStream` over exactly these bytes, the stream object's `EventStream` (reader state)
+  carried over from earlier calls; every event is printed to the output as soon as it is read.  The first exception — an
+  invalid entry, a printer error, or the `Range overflow` of the incomplete entry at the end of the bytes — leaves `write`
+  with what was printed so far on the output. -/
+
+/-- the whole entries of the chunk, in order: (state, output so far, exception, `nextEvent` returned null) -/
+def textOutEntries (fmt dateFmt : Bytes) : ReaderState → List Bytes → Bytes → ReaderState × Bytes × Option Err × Bool
+  | st, [], acc => (st, acc, none, false)
+  | st, p :: ps, acc =>
+    match stepEntry st p with
+    | none => (st, acc, none, true)
+    | some (items, st') =>
+      match items with
+      | [] => textOutEntries fmt dateFmt st' ps acc
+      | .error e :: _ => (st', acc, some e, false)
+      | .event ev wp cs :: _ =>
+        match renderEvent fmt dateFmt ev wp cs with
+        | .error e => (st', acc, some e, false)
+        | .ok t => textOutEntries fmt dateFmt st' ps (acc ++ t)
+
+/-- one `write`: new reader state, the output after the call, the exception the call ends with (if any) -/
+def textOutWrite (fmt dateFmt : Bytes) (st : ReaderState) (out : Bytes) (chunk : Bytes) : ReaderState × Bytes × Option Err :=
+  let (ps, _, tail) := splitEntries chunk
+  let (st', out', err, stopped) := textOutEntries fmt dateFmt st ps out
+  let e : Option Err := match err with
+    | some e => some e
+    | none =>
+      if stopped then none else
+      match tail with
+      | .clean => none
+      | .truncSize => some .overflow      -- RangeEntryStream: an incomplete size field or payload is a `Range overflow`
+      | .truncPayload => some .overflow
+  (st', out', e)
+
 end BinlogVerif.Bread
